@@ -327,6 +327,9 @@ def oracle_trace(ops, obs, pid='C03', kind=None):
             cur.pop(t, None)
             if holder == t:
                 holder = None
+        elif o in ('undo', 'undotxn', 'undomulti', 'reopen') and first in ('skipped', 'blocked'):
+            pass            # not executed: the transaction did not write exactly this object (skipped), or a
+            #                 transaction is in progress (blocked; only shrunk / wound-up programs do this)
         elif o == 'undo':
             tid, oid, ctid, undone, pre, curw = int(tk[1]), int(tk[2]), int(tk[3]), int(tk[4]), tk[5], tk[6]
             calls = [x for x in parts if x.startswith('call=')]
@@ -387,8 +390,6 @@ def oracle_trace(ops, obs, pid='C03', kind=None):
             if first == 'ok' and len(parts) > 1:
                 hist.setdefault(oid, []).append((tid, None if parts[1] == 'none' else parts[1]))
                 multitids.add(tid)
-        elif o == 'undotxn' and first == 'skipped':
-            pass            # the transaction did not write exactly this object: op not defined, not executed
         elif o == 'undotxn':
             # expectation from the history tracked so far (real outcomes only)
             tid, oid, undone = int(tk[1]), int(tk[2]), int(tk[3])
@@ -529,7 +530,10 @@ def gen_storage_case(rng, kind, size):
             elif holder[0] is None and pending[0] is None and kind == 'file' and r < (0.68 if noids == 1 else 0.56):
                 # undo of a committed transaction of one object (skipped by both sides unless it wrote
                 # exactly that object): mostly the current revision -> a back-pointer record without data
-                cands = [o for o in oids if len(sim.get(o, [])) >= 2 and all(v is not None for _, v in sim[o])]
+                # (not the counter class: its merge can produce a state EQUAL to a hand-pickled one with
+                #  different bytes, and undo decides "same data" byte-wise — the model compares states)
+                cands = [o for o in oids if cls[o] != COUNTER and len(sim.get(o, [])) >= 2
+                         and all(v is not None for _, v in sim[o])]
                 if cands:
                     oid = rng.choice(cands)
                     h = sim[oid]
@@ -653,7 +657,7 @@ def gen_storage_undo_case(rng):
         nonlocal tid
         tid += rng.choice([1, 3])
         val[0] += 1
-        ops.extend(['begin 1 %d' % tid, 'store 1 1 %d %s' % (revs[-1] if revs else 0, L.rec_wire(rng.choice([2, 1, 11]), 0, val[0])),
+        ops.extend(['begin 1 %d' % tid, 'store 1 1 %d %s' % (revs[-1] if revs else 0, L.rec_wire(rng.choice([2, 11, 11]), 0, val[0])),
                     'vote 1', 'finish 1'])
         revs.append(tid)
     commit1()
